@@ -2,6 +2,7 @@ import NmVerif.Index.Broadcast
 import NmVerif.Lemmas.Broadcast
 import NmVerif.Index.BroadcastExpr
 import NmVerif.Index.BroadcastKinds
+import NmVerif.Lemmas.BroadcastKinds
 /-
   C06 — Broadcasting follows NumPy's rules and is symmetric, associative, idempotent.
   Only property statements (+ non-vacuity examples) live here; lemmas are in Lemmas/Broadcast.lean.
@@ -589,6 +590,70 @@ theorem broadcastTo_inBounds (src dst : Shape) (v : IxView) (h : broadcastToView
   unfold specBroadcastIdx
   rw [this, List.drop_left]
   exact specAligned_inShape hfs hin
+
+/-! ### the container kind of the operands does not matter (model of meta::resolve_optype<broadcast_shape_t>,
+tied to the code by the `value@container` answers of the kind matrix) -/
+
+/-- **the result container is never too small**: for well-formed operands of ANY kinds (constant, clipped with any
+    bounds ≥ the values, fixed, bounded, dynamic, None), if `broadcast_shape(a, b)` compiles, the container
+    `meta::resolve_optype` picks for the result holds the broadcast value without clamping a clipped integer and
+    without exceeding a bounded vector -/
+theorem broadcast_container_fits (a b : KShape) (ha : a.WF) (hb : b.WF) (r : Shape)
+    (hr : broadcastShape2 a.vals b.vals = some r) (hne : resolveBroadcast a b ≠ .error) :
+    (resolveBroadcast a b).Fits r ∧ (resolveBroadcast a b).store r = (r, 0, 0) :=
+  ⟨resolveBroadcast_fits ha hb hr hne, RType.store_of_fits (resolveBroadcast_fits ha hb hr hne)⟩
+
+/-- a call that does not compile (both shapes compile-time constants, incompatible) is a refusal of the rule too -/
+theorem broadcast_compile_error_is_refusal (a b : KShape) (ha : a.WF) (hb : b.WF)
+    (he : resolveBroadcast a b = .error) : broadcastShape2 a.vals b.vals = none :=
+  resolveBroadcast_error ha hb he
+
+/-- **two operands, any kinds**: the kinded call either does not compile — then the shapes are incompatible — or
+    returns exactly the kind-blind `broadcastShape2` of the values (same shape / Nothing) with no hook event -/
+theorem kBroadcast2_kind_independent (a b : KShape) (ha : a.WF) (hb : b.WF) :
+    (kBroadcast2 a b = none → broadcastShape2 a.vals b.vals = none) ∧
+    (∀ o, kBroadcast2 a b = some o → o.val = broadcastShape2 a.vals b.vals ∧ o.clamps = 0 ∧ o.overflows = 0) := by
+  have := kPair_faithful a.out b.out (KShape.out_good ha) (KShape.out_good hb)
+  simp only [KShape.out, Option.bind_some] at this
+  refine ⟨this.1, fun o ho => ?_⟩
+  obtain ⟨g, e⟩ := this.2 o ho
+  exact ⟨e, g.ev.1, g.ev.2⟩
+
+/-- **any nest of calls, any kinds** (every order and grouping, intermediate results in the containers the library
+    gave them): either some call of the nest does not compile — then the kind-blind nest is a refusal — or the value
+    is the kind-blind one, with no clamp and no capacity event anywhere in the nest.  Together with
+    `bexpr_eval_congr` the result of a kinded nest depends only on WHICH operands occur in it. -/
+theorem keval_kind_independent (env : List KShape) (henv : ∀ a ∈ env, a.WF) (e : BExpr) :
+    (e.keval env = none → e.eval (env.map (·.vals)) = none) ∧
+    (∀ o, e.keval env = some o → o.val = e.eval (env.map (·.vals)) ∧ o.clamps = 0 ∧ o.overflows = 0) := by
+  have := keval_faithful env henv e
+  refine ⟨this.1, fun o ho => ?_⟩
+  obtain ⟨g, e⟩ := this.2 o ho
+  exact ⟨e, g.ev.1, g.ev.2⟩
+
+/-- the operands the driver builds for the kind matrix satisfy the hypothesis -/
+theorem ofKind_wf (kind : String) (vals bounds : List Nat) (a : KShape)
+    (h : KShape.ofKind kind vals bounds = some a) (hp : Pos vals) (hb : kind = "cl" → LeL vals bounds)
+    (hn : kind = "none" → vals = []) (hsv : kind = "sv" → vals.length ≤ 8) : a.WF :=
+  KShape.ofKind_wf h hp hb hn hsv
+
+-- non-vacuity: well-formed operands of mixed kinds, the container chosen, both outcomes
+example : KShape.WF ⟨KInfo.ct 2, [3, 1]⟩ := ofKind_wf "ct" [3, 1] [] _ rfl (by decide) (by simp) (by simp) (by simp)
+example : KShape.WF ⟨KInfo.cl [4, 2], [3, 1]⟩ :=
+  ofKind_wf "cl" [3, 1] [4, 2] _ rfl (by decide) (fun _ => by decide) (by simp) (by simp)
+example : KShape.WF ⟨KInfo.arr 2, [3, 5]⟩ := ofKind_wf "a" [3, 5] [] _ rfl (by decide) (by simp) (by simp) (by simp)
+example : resolveBroadcast ⟨KInfo.ct 2, [3, 1]⟩ ⟨KInfo.arr 2, [3, 5]⟩ = .arr 2 := by decide
+example : resolveBroadcast ⟨KInfo.ct 2, [3, 2]⟩ ⟨KInfo.arr 2, [3, 1]⟩ = .clippedT [3, 2] := by decide
+example : resolveBroadcast ⟨KInfo.ct 2, [3, 2]⟩ ⟨KInfo.sv 2, [2]⟩ = .clippedArr 3 2 := by decide
+example : resolveBroadcast ⟨KInfo.cl [4, 2], [3, 1]⟩ ⟨KInfo.ct 2, [3, 2]⟩ = .arr 2 := by decide
+example : resolveBroadcast ⟨KInfo.ct 2, [2, 3]⟩ ⟨KInfo.ct 2, [3, 2]⟩ = .error := by decide
+example : (kBroadcast2 ⟨KInfo.ct 2, [3, 1]⟩ ⟨KInfo.arr 2, [3, 5]⟩).map (·.val) = some (some [3, 5]) := by decide
+example : (BExpr.pair (.leaf 0) (.pair (.leaf 0) (.leaf 1))).keval [⟨KInfo.ct 2, [3, 1]⟩, ⟨KInfo.sv 8, [3, 5]⟩]
+    = some { ty := .svec 8, val := some [3, 5] } := by decide
+/-- why the resolver must bail out on an extent 1 of a constant shape (the seeded change `I > 0` for `I > 1`,
+    broadcast_shape.hpp:378): with the bounds (3,1) taken from the constant operand (3,1) the broadcast (3,5) with a
+    run-time operand is clamped to (3,1), one clamp event -/
+example : (RType.clippedT [3, 1]).store [3, 5] = ([3, 1], 1, 0) := by decide
 
 /-! ### zero extents (outside the property's quantifier, inside "NumPy's rules") -/
 
